@@ -34,8 +34,9 @@ def run(ctx):
     import numdifftools as nd
     from numdifftools.finite_difference import LogRule
     from numdifftools import finite_difference as fdm
-    from harness.common import rule_cache
+    from harness.common import rule_cache, reset_rule_cache
     RC = rule_cache(fdm)
+    reset_rule_cache(RC)            # remembers the import-time contents
     from numdifftools.extrapolation import Richardson
     translator_obligations(ctx, ['LogRule.', 'DiffFuns.'])
     lean_obligations(ctx, MODULE, THEOREMS)
@@ -121,7 +122,7 @@ def run(ctx):
             x = Fraction(rng.randint(-8, 8), 4)
             f = lambda t: peval([float(c) for c in cs], t)
             captured.clear()
-            RC.clear()
+            reset_rule_cache(RC)
             with warnings.catch_warnings():
                 warnings.simplefilter('ignore')
                 val = nd.Derivative(f, n=n, method=m, order=order)(float(x))
@@ -186,7 +187,7 @@ def run(ctx):
             if abs(val - exact) > bound:
                 ctx.violation('Derivative is not exact (to rounding) on a polynomial of degree < n + method_order', method=m, n=n, order=order,
                               coefficients=list(map(str, cs)), x=str(x), got=val, exact=exact, bound=bound)
-    RC.clear()
+    reset_rule_cache(RC)
 
     # ---------------- failing-input search -------------------------------------------------------------------------------
     ctx.search['rule'] = ('random expression programs (depth <= 4) over + - * / integer and real powers exp log sqrt sin cos tan sinh cosh tanh '
